@@ -619,18 +619,29 @@ func (w *World) decoderDateUnit(dec *ssa.Function, t int) (string, string) {
 		return "?", "-"
 	}
 	unit := "?"
-	if call, ok := run.Ret.Results[0].(*ssa.Call); ok && call.Call.StaticCallee() != nil {
-		switch qualifiedFnName(call.Call.StaticCallee()) {
+	// the constructor the returned time comes from ON THIS PATH (the operand of the
+	// return may be a φ of a named result: the recorded call behind its term decides)
+	org := run.Origin
+	if org == nil && run.State != nil {
+		org = run.State.originOf(run.Result)
+	}
+	if org != nil {
+		switch callName(org) {
 		case "time.UnixMilli":
 			unit = "milliseconds"
 		case "time.Unix":
 			unit = "seconds"
-			f := w.flow(dec)
-			if k, isC := call.Call.Args[1].(*ssa.Const); !isC || k.Int64() != 0 {
-				unit = "nanoseconds-scaled"
-			}
-			if tt := f.term(call.Call.Args[0]); tt.K == TBin && tt.Op == token.MUL && tt.B.K == TConst && tt.B.C.Int64() == 60 {
-				unit = "minutes"
+			if len(org.Args) == 2 {
+				if k := org.Args[1]; k.K != TConst || k.C.Sign() != 0 {
+					unit = "nanoseconds-scaled"
+				}
+				tt := org.Args[0]
+				for tt.K == TConv {
+					tt = tt.A
+				}
+				if tt.K == TBin && tt.Op == token.MUL && tt.B.K == TConst && tt.B.C.IsInt64() && tt.B.C.Int64() == 60 {
+					unit = "minutes"
+				}
 			}
 		}
 	}
